@@ -234,6 +234,8 @@ vm_prop("C03", [GV + ("bc", 1), GV + ("lazy", 1), GV + ("partial", 1), GV + ("ov
 FRONT_REL = {
     "C09": {"lexaccept", "tokens", "partition", "positions", "longest", "wholeword", "dotquestion", "total"},
     "C08": {"parseaccept", "tree", "spans", "nonassoc", "total"},
+    # C12: the deterministic measure of parser work is polynomial, and it is the specification's
+    "C12": {"eats", "eatsbound", "total"},
 }
 GF = ("Gen_Front", "Gen_Front.cfg")
 
@@ -311,3 +313,72 @@ def c10(tier, seed):
                   "original tree is untouched and that desugaring it again gives the same; semantic: programs rendered in sugared "
                   "notations evaluate to the specification's value of the explicit calls. distinct = distinct texts; non-trivial = parsed",
                   assumptions=["TLC's evaluation of the TLA+ operators is trusted"])
+
+
+# ---------------------------------------------------------------------------- API histories (C07, C12, C13)
+def api_rel(names):
+    names = set(names)
+    return lambda why: {w for w in why if w.rsplit("_", 1)[0] in names}
+
+
+API_REL = {
+    # C07: rejected iff a compile-time name is missing / differently typed, and a rejection evaluates nothing
+    "C07": api_rel({"accepted", "rejected", "outcome", "value", "log"}),
+    # C12: a value or an error, never a panic
+    "C12": api_rel({"panic", "hostoutcome"}),
+    # C13: determinism, purity, reusability
+    "C13": api_rel({"nondet", "stdout", "hostmutated", "rejected", "outcome", "value", "log", "accepted"}),
+}
+GA = ("Gen_Api", "Gen_Api.cfg")
+
+
+def api_key(r):
+    return json.dumps(r.get("h"), sort_keys=True)
+
+
+def api_stage(run, pid, modes, rel=None):
+    rel = rel or API_REL[pid]
+    base = 0
+    for module, cfg, mode, size in modes:
+        cases, n = run.generate(module, cfg, mode=mode, size=size, idbase=base)
+        base += n
+        obs = run.replay("api", cases=cases, name="api_%s_%s" % (mode, size))
+        verdicts = run.validate("Trace_Api", obs, cfg="TraceT.cfg", shard=160, parallel=14, heap="3g")
+        run.triage("api", "Trace_Api", obs, verdicts, rel, cfg="TraceT.cfg", key=api_key, nontrivial=lambda r: len(r.get("h", [])) >= 2)
+
+
+API_RULE = ("cases: TLC enumerates API histories (compile / invoke / eval / debug over pools of environment objects, sources and "
+            "engines); the specification gives each step the outcome its objects' CONTENTS dictate; the harness executes each history "
+            "on the same Go objects the history names, on every back end, repeating every evaluation; TLC judges every step. "
+            "distinct = distinct histories; non-trivial = at least two steps")
+
+
+def api_prop(pid, quick_modes, thorough_modes):
+    def fn(tier, seed):
+        run = Run(pid, tier, seed)
+        modes = thorough_modes if tier == "thorough" else quick_modes
+        api_stage(run, pid, modes)
+        run.bounds = dict(universes=[dict(root=m[0], mode=m[2], size=m[3]) for m in modes])
+        return finish(run, "model_checking", API_RULE, assumptions=["TLC's evaluation of the TLA+ operators is trusted",
+                      "wall-clock promptness and process survival are observed by the harness watchdog, not by TLC"])
+    PROPS[pid] = fn
+    REPLAY[pid] = ("api", "Trace_Api", API_REL[pid])
+
+
+def c12(tier, seed):
+    run = Run("C12", tier, seed)
+    thorough = tier == "thorough"
+    api_stage(run, "C12", [GA + ("total", 0), GA + ("hosts", 0)] + ([GA + ("hist", 3)] if thorough else []))
+    # parser work (eat calls): bracket nests and all short token strings
+    front_stage(run, "C12", [("Gen_Front", "Gen_FrontNests.cfg", "nests", 14 if thorough else 11), GF + ("toks", 4 if thorough else 3)])
+    run.bounds = dict(api="one-step histories over 16 sources x hosts; 17 unusual host values through Eval / Compile+call / Debug",
+                      nests="7 bracket families to depth %d; all token strings of <= %d tokens" % (14 if thorough else 11, 4 if thorough else 3))
+    return finish(run, "model_checking", API_RULE + " | parser work: the eat() counter (hook) of the real parser equals the "
+                  "specification's and stays below 4(n+1)^2 for n tokens",
+                  assumptions=["wall-clock promptness and process survival are observed by the harness watchdog (20 s per case), not by TLC"])
+
+
+PROPS["C12"] = c12
+REPLAY["C12"] = ("api", "Trace_Api", API_REL["C12"])
+api_prop("C07", [GA + ("pairs", 0)], [GA + ("pairs", 1), GA + ("hist", 3)])
+api_prop("C13", [GA + ("hist", 3), GA + ("total", 0)], [GA + ("hist", 4), GA + ("total", 0), GA + ("pairs", 1)])
